@@ -30,6 +30,8 @@ import (
 
 var out = gen.NewOut()
 
+var samples = map[string]int{}
+
 const bound = types.MaxBlockSize - 100000
 
 // ---------------------------------------------------------------- configuration
@@ -318,6 +320,10 @@ func (w *world) runAdd(c *conf, height int64, pre []*types.Transaction, pool []*
 	out.Op(op, res)
 	out.Stat("add_cases", 1)
 	out.Stat("add_"+tag, 1)
+	if samples[tag] < 1 && len(op) < 400 {
+		samples[tag]++
+		out.Sample(fmt.Sprintf("[%s cfg=%s limit(%d)=%d] %s -> %s", tag, c.name, height, c.limit(height), op, res))
+	}
 	sig := func(kind string) string { return "C30|AddTxsToBlock|" + kind }
 	det := fmt.Sprintf("cfg=%s height=%d count0=%d size0=%d pool=%d tag=%s", c.name, height, count0, size0, len(pool), tag)
 	if res == "panic" {
@@ -452,7 +458,11 @@ func (w *world) smallOpt(blProb int) txOpt {
 func (w *world) randomPool(n int, blProb int, malformed bool) []*types.Transaction {
 	var pool []*types.Transaction
 	for len(pool) < n {
-		switch w.r.Pick(5, 4, 1) {
+		mw := 1
+		if malformed {
+			mw = 3
+		}
+		switch w.r.Pick(5, 4, mw) {
 		case 0:
 			pool = append(pool, w.newTx(w.smallOpt(blProb)))
 		case 1:
@@ -534,7 +544,7 @@ func (w *world) countEdges(c *conf) {
 		if lim > 200 {
 			continue
 		}
-		for rep := 0; rep < gen.Scale(3, 30); rep++ {
+		for rep := 0; rep < gen.Scale(3, 120); rep++ {
 			// pools whose flattened length is around the limit; pre-filled blocks sometimes
 			pre := []*types.Transaction{}
 			if w.r.Chance(1, 3) {
@@ -582,7 +592,7 @@ func (w *world) poolWithTotal(total int, blProb int) []*types.Transaction {
 // sizeEdges: fill the block to bound-d for d around 0 with realistic transactions (<= ~99 KB each,
 // singles and groups), and with a few huge singles.
 func (w *world) sizeEdges(c *conf, height int64) {
-	for rep := 0; rep < gen.Scale(6, 60); rep++ {
+	for rep := 0; rep < gen.Scale(6, 150); rep++ {
 		block := &types.Block{Height: height}
 		size0 := block.Size()
 		var pool []*types.Transaction
@@ -917,13 +927,13 @@ func (w *world) expireCases(c *conf) {
 	type hb struct{ h, b int64 }
 	pts := []hb{{10, 1600000000}, {1, 1}, {0, 1600000000}, {10, 0}, {-1, 5}, {1000, 2000000000}, {5000000, 1700000000}}
 	for _, p := range pts {
-		for rep := 0; rep < gen.Scale(8, 150); rep++ {
+		for rep := 0; rep < gen.Scale(8, 500); rep++ {
 			segs := w.buildSegs(c, w.r.Range(0, 9), p.h, p.b, true)
 			w.runExpire(c, segs, nil, p.h, p.b, "well_formed")
 		}
 	}
 	// malformed lists (differential only): truncated groups, GroupCount 1, negative, oversized
-	for rep := 0; rep < gen.Scale(40, 600); rep++ {
+	for rep := 0; rep < gen.Scale(40, 3000); rep++ {
 		segs := w.buildSegs(c, w.r.Range(1, 6), 10, 1600000000, true)
 		var txs []*types.Transaction
 		for _, s := range segs {
